@@ -142,7 +142,9 @@ def gen_case(kind, profile, seed, tier='quick'):
     if kind == 'repro':
         sc = S.gen(seed, profile)
         rng = random.Random('repro/%s' % seed)
-        return {'kind': 'repro', 'sc': sc, 'hashseeds': [1, rng.randint(2, 4000), rng.randint(4001, 2 ** 31)]}
+        return {'kind': 'repro', 'sc': sc, 'hashseeds': [1, rng.randint(2, 4000), rng.randint(4001, 2 ** 31)],
+                # another simulation, abandoned part-way, runs in the same process between the two runs
+                'interloper': {'seed': 'x/%s' % seed, 'until': rng.randint(1, 12)}}
     if kind == 'pause':
         sc = S.gen(seed, profile)
         rng = random.Random('pause/%s' % seed)
@@ -312,6 +314,15 @@ def exec_repro(case, d):
 
     def add(clause, msg, site=''):
         viol.append(dict(prop='C10', clause=clause, site=site, msg=msg[:300], t=None, seq=None))
+    if case.get('interloper'):
+        # state must not leak from one Simulation object to the next in the same interpreter
+        try:
+            isc = S.gen(case['interloper']['seed'], 'repro')
+            isc['faults']['delay_model'] = None
+            sut.run_scenario(isc, d, monitor='light', until=case['interloper']['until'])
+            out['faults']['F6:interloper'] = 1
+        except Exception:
+            pass
     r2, t2 = run_for_tables(sc, d)
     out['nevents'] += r2.nevents
     out['T'] += float(r2.T)
